@@ -133,32 +133,37 @@ End StableSort.
 Fixpoint index_terms (i : nat) (l : list bytes) : list (nat * bytes) :=
   match l with [] => [] | x :: r => (i, x) :: index_terms (S i) r end.
 
-(* scoreTerms / filterAndSortTerms: distinct terms; the first four positions are "original";
+(* scoreTerms: distinct terms with their idf; the first [preserve] positions are "original";
    a term unknown to the index is kept only if original *)
+Fixpoint score_terms (E : env) (cmds : list command) (preserve : nat) (seen : list bytes) (l : list (nat * bytes))
+  : list (bytes * float * bool) :=
+  match l with
+  | [] => []
+  | (i, t) :: r =>
+      if mem_bytes t seen then score_terms E cmds preserve seen r
+      else let d := df E cmds t in
+           let orig := Nat.ltb i preserve in
+           if (d =? 0)%Z then (if orig then (t, 1%float, true) :: score_terms E cmds preserve (t :: seen) r
+                               else score_terms E cmds preserve (t :: seen) r)
+           else (t, e_idf E (Z.of_nat (length cmds)) d, orig) :: score_terms E cmds preserve (t :: seen) r
+  end.
+
+Definition term_of (x : bytes * float * bool) : bytes := fst (fst x).
+Definition idf_of (x : bytes * float * bool) : float := snd (fst x).
+
+(* selectTopTerms / filterAndSortTerms *)
 Definition select_top_terms (E : env) (cmds : list command) (terms : list bytes) (cap : Z) : list bytes :=
   if (cap <=? 0)%Z || (Z.of_nat (length terms) <=? cap)%Z then terms
   else
-    let preserve := Nat.min 4 (length terms) in
-    let n := Z.of_nat (length cmds) in
-    let fix go (seen : list bytes) (l : list (nat * bytes)) : list (bytes * float * bool) :=
-        match l with
-        | [] => []
-        | (i, t) :: r =>
-            if mem_bytes t seen then go seen r
-            else let d := df E cmds t in
-                 let orig := Nat.ltb i preserve in
-                 if (d =? 0)%Z then (if orig then (t, 1%float, true) :: go (t :: seen) r else go (t :: seen) r)
-                 else (t, e_idf E n d, orig) :: go (t :: seen) r
-        end in
-    let lst := go [] (index_terms 0 terms) in
-    if (Z.of_nat (length lst) <=? cap)%Z then map (fun x => fst (fst x)) lst
+    let lst := score_terms E cmds (Nat.min 4 (length terms)) [] (index_terms 0 terms) in
+    if (Z.of_nat (length lst) <=? cap)%Z then map term_of lst
     else
       let originals := filter (fun x => snd x) lst in
       let enhanced := filter (fun x => negb (snd x)) lst in
-      let out := map (fun x => fst (fst x)) originals in
+      let out := map term_of originals in
       let remaining := (cap - Z.of_nat (length out))%Z in
       if (remaining >? 0)%Z
-      then out ++ map (fun x => fst (fst x)) (firstn (Z.to_nat remaining) (sort_desc (fun x => snd (fst x)) enhanced))
+      then out ++ map term_of (firstn (Z.to_nat remaining) (sort_desc idf_of enhanced))
       else out.
 
 (* ---------- per-term boosts ---------- *)
